@@ -78,6 +78,7 @@ class Ctx:
         self.neg_rejected = 0
         self.neg_total = 0
         self.extra = {}
+        self.drifts = []
         self.assumptions = []
         self.rule = ""
         self.exhaustive = None
@@ -108,11 +109,12 @@ class Ctx:
         d["module"], d["cfg"] = module, cfg
         self.tlc_runs.append(d)
         if expect_violation:
-            if expect_violation not in r.violated:
+            exp = [expect_violation] if isinstance(expect_violation, str) else list(expect_violation)
+            if not any(x in r.violated for x in exp):
                 raise MachineryError(
                     "demonstration config %s should violate %s but TLC found %s" % (cfg, expect_violation, r.violated)
                 )
-            d["expected_violation_found"] = expect_violation
+            d["expected_violation_found"] = [x for x in exp if x in r.violated]
         elif r.violated:
             raise MachineryError("design-level model %s/%s violates %s:\n%s" % (module, cfg, r.violated, r.raw_tail[-3000:]))
         return r
@@ -133,7 +135,9 @@ class Ctx:
         seen = [0]
 
         def sink(s):
-            if isinstance(s, str) and s.startswith("V "):
+            if isinstance(s, str) and s.startswith("D "):
+                self.drifts.append(s[2:])
+            elif isinstance(s, str) and s.startswith("V "):
                 parts = s.split(" ", 2)
                 verdicts[int(parts[1]) - 1] = parts[2] if len(parts) > 2 else "?"
                 seen[0] += 1
